@@ -689,3 +689,244 @@ Proof.
     + split; intros t; destruct t; try reflexivity; apply ItB_no_iter; reflexivity.
     + intros Hst. discriminate.
 Qed.
+
+(* ------------------------------------------------------------------ observer.join() of an application thread *)
+Definition is_join (i : instr) : bool := match i with IJoinDisp => true | _ => false end.
+Definition has_join (k : list instr) : bool := existsb is_join k.
+
+Lemma has_join_unwind k : has_join k = false -> has_join (unwind k) = false.
+Proof.
+  unfold has_join. induction k as [|i k IH]; simpl; auto. intros H. apply orb_false_iff in H as [H1 H2].
+  destruct i; simpl in *; auto.
+Qed.
+
+Lemma exec_no_join s t i k inp s' : exec s t i k inp = Some s' -> barrier i = false ->
+  has_join (i :: k) = false -> has_join (cont s' t) = false.
+Proof.
+  intros H Hb Hj. unfold has_join in Hj. simpl in Hj. apply orb_false_iff in Hj as [Hi Hk].
+  destruct i; simpl in Hb, Hi; try discriminate; crush_exec H; rewrite cont_set_cont_same;
+    try (apply has_join_unwind; exact Hk); try exact Hk;
+    unfold has_join in *; simpl; rewrite ?existsb_app; simpl; rewrite ?Hk; auto.
+  - rewrite existsb_flat_false by reflexivity. simpl. rewrite existsb_app. rewrite existsb_flat_false by reflexivity.
+    simpl. exact Hk.
+  - rewrite existsb_map_false by reflexivity. reflexivity.
+Qed.
+
+Definition JInv (s : state) : Prop :=
+  forall n, has_join (cont s (TA n)) = true -> cont s (TA n) = [IJoinDisp; IRet CJoin].
+
+Lemma JInv_reachable s : reachable s -> JInv s.
+Proof.
+  intros Hs. assert (G : SegInv s /\ JInv s); [|tauto]. revert s Hs.
+  apply (reach_P (fun s => SegInv s /\ JInv s)).
+  - intros s t i k inp s' [[HR HN] HJ] Ec H.
+    assert (HS' : SegInv s').
+    { split.
+      + intros t'. destruct (tid_eq_dec t' t) as [->|Hne].
+        * eapply exec_raise_ok; eauto. rewrite <- Ec. apply HR.
+        * destruct (exec_others _ _ _ _ _ _ H t' Hne) as [E | [_ [_ [_ E]]]]; rewrite E; auto.
+      + intros n. destruct (tid_eq_dec (TA n) t) as [<-|Hne].
+        * eapply exec_nobarrier; eauto. rewrite <- Ec. apply HN.
+        * destruct (exec_others _ _ _ _ _ _ H (TA n) Hne) as [E | [_ [Ht _]]]; [rewrite E; auto | discriminate]. }
+    split; auto. intros n Hj. destruct (tid_eq_dec (TA n) t) as [<-|Hne].
+    + specialize (HN n). rewrite Ec in HN. simpl in HN. apply andb_true_iff in HN as [Hb _]. apply negb_true_iff in Hb.
+      destruct (has_join (i :: k)) eqn:Ej.
+      * rewrite <- Ec in Ej. specialize (HJ n Ej). rewrite Ec in HJ. inversion HJ; subst. exfalso.
+        crush_exec H; unfold cont in Hj; simpl in Hj; rewrite alookup_aset_same in Hj; discriminate.
+      * rewrite (exec_no_join _ _ _ _ _ _ H Hb Ej) in Hj. discriminate.
+    + destruct (exec_others _ _ _ _ _ _ H (TA n) Hne) as [E | [_ [Ht _]]]; [|discriminate].
+      rewrite E in *. apply HJ; auto.
+  - intros s n c [[HR HN] HJ] Ec. split.
+    + split.
+      * intros t'. destruct (tid_eq_dec t' (TA n)) as [->|Hne].
+        -- rewrite cont_set_cont_same. destruct (fixed s), c; reflexivity.
+        -- rewrite cont_set_cont_other by congruence. destruct t'; [apply (HR TD) | apply (HR (TA n0))].
+      * intros n'. destruct (tid_eq_dec (TA n') (TA n)) as [E|Hne].
+        -- rewrite E. rewrite cont_set_cont_same. destruct (fixed s), c; reflexivity.
+        -- rewrite cont_set_cont_other by congruence. apply (HN n').
+    + intros n' Hj. destruct (tid_eq_dec (TA n') (TA n)) as [E|Hne].
+      * rewrite E in *. rewrite cont_set_cont_same in *. destruct (fixed s), c; simpl in Hj; try discriminate; reflexivity.
+      * rewrite cont_set_cont_other in * by congruence. apply (HJ n'). exact Hj.
+  - intros s l s' [[HR HN] HJ] Hl H. destruct (em_step_frame _ _ _ Hl H) as [Ec _]. split.
+    + split; intros; rewrite Ec; auto.
+    + intros n. rewrite Ec. apply HJ.
+  - split; [split; [intros t; destruct t; reflexivity | intros n; reflexivity]|]. intros n Hj. discriminate.
+Qed.
+
+(* ------------------------------------------------------------------ a started, not exited dispatcher has something to do *)
+Lemma exec_dexited s t i k inp s' : exec s t i k inp = Some s' -> dexited s' = dexited s \/ (i = DExitI /\ dexited s' = true).
+Proof. intros H. destruct i; crush_exec H; rewrite dexited_set_cont; auto. Qed.
+
+Definition DA (s : state) : Prop := dstarted s = true -> dexited s = false -> after_d (dcont s) <> [].
+
+Lemma DA_exec s t i k inp s' : P3 s -> DA s -> cont s t = i :: k -> exec s t i k inp = Some s' -> DA s'.
+Proof.
+  intros [HL [[HR HN] HD]] HA Ec H Hst' Hex'.
+  destruct (exec_misc _ _ _ _ _ _ H) as [_ [Eds _]].
+  destruct (tid_eq_dec t TD) as [->|Hne].
+  - simpl in Ec.
+    assert (Hst : dstarted s = true).
+    { destruct HL as [_ [_ [HDI _]]]. destruct (dstarted s) eqn:E; auto. rewrite (HDI eq_refl) in Ec. discriminate. }
+    destruct (is_d i) eqn:Hd.
+    + assert (Ea : after_d (dcont s) = i :: k) by (rewrite Ec; simpl; rewrite Hd; reflexivity).
+      unfold DlInv in HD. rewrite Ea in HD.
+      destruct i; simpl in Hd; try discriminate; simpl in H.
+      * destruct (dstop s); inversion H; subst; simpl; discriminate.
+      * inversion H; subst. simpl in Hex'. discriminate.
+      * destruct (queue s) as [|[e w|] q]; try discriminate; inversion H; subst; simpl; discriminate.
+      * destruct HD as [[Hi _] | [[E _] | [[E _] | [E _]]]];
+          [destruct Hi as [Hi|[Hi|[Hi|Hi]]]; discriminate | | discriminate | discriminate].
+        inversion E; subst. destruct (dcur s) as [[e w]|]; try discriminate. inversion H; subst. simpl. discriminate.
+      * destruct HD as [[Hi _] | [[E _] | [[E _] | [E _]]]];
+          [destruct Hi as [Hi|[Hi|[Hi|Hi]]]; discriminate | discriminate | | discriminate].
+        inversion E; subst. destruct (dtodo s); destruct (dcur s) as [[e w]|]; try discriminate;
+          try (inversion H; subst; simpl; discriminate).
+        destruct inp as [| |hh calls]; try discriminate. destruct (memN hh (h :: l)); try discriminate.
+        destruct (memN hh (hset w (hauto w (handlers s)))); inversion H; subst; simpl;
+          rewrite ?after_d_app by fb_solve; simpl; discriminate.
+      * destruct HD as [[Hi _] | [[E _] | [[E _] | [E _]]]];
+          [destruct Hi as [Hi|[Hi|[Hi|Hi]]]; discriminate | discriminate | discriminate | ].
+        inversion E; subst. inversion H; subst. simpl. discriminate.
+    + assert (Hro : raise_ok (i :: k) = true) by (rewrite <- Ec; apply (HR TD)).
+      destruct (exec_nond _ _ _ _ _ _ Hd H Hro) as [_ [_ [_ Ea]]]. simpl in Ea. rewrite Ea.
+      destruct (exec_dexited _ _ _ _ _ _ H) as [Ex | [Ei _]]; [|subst i; discriminate].
+      rewrite Ex in Hex'. specialize (HA Hst Hex'). rewrite Ec in HA. simpl in HA. rewrite Hd in HA. exact HA.
+  - destruct (exec_others _ _ _ _ _ _ H TD (not_eq_sym Hne)) as [E | [_ [_ [_ E]]]]; simpl in E; rewrite E; [|simpl; discriminate].
+    destruct (exec_dexited _ _ _ _ _ _ H) as [Ex | [Ei _]].
+    + rewrite Ex in Hex'. destruct Eds as [Es | [Ei Es]].
+      * rewrite Es in Hst'. auto.
+      * (* IStartDisp by another thread: handled above via exec_others, here the continuation is unchanged only if it raised *)
+        subst i. simpl in H. destruct (dstarted s) eqn:Est; [auto|].
+        exfalso. inversion H; subst. destruct t; [congruence|]. simpl in E.
+        destruct HL as [_ [_ [HDI _]]]. rewrite (HDI Est) in E. discriminate.
+    + exfalso. subst i. destruct t; [congruence|]. specialize (HN n). rewrite Ec in HN. discriminate.
+Qed.
+
+Lemma DA_reachable s : reachable s -> DA s.
+Proof.
+  intros Hs. assert (G : P3 s /\ DA s); [|tauto]. revert s Hs.
+  apply (reach_P (fun s => P3 s /\ DA s)).
+  - intros s t i k inp s' [H3 HA] Ec H. split; [eapply P3_exec; eauto | eapply DA_exec; eauto].
+  - intros s n c [H3 HA] Ec. split; [apply P3_call; auto|]. exact HA.
+  - intros s l s' [H3 HA] Hl H. split; [eapply P3_em; eauto|].
+    destruct (em_step_frame _ _ _ Hl H) as [Ec [_ [Eds [_ [Eex _]]]]].
+    intros H1 H2. rewrite Eds in H1. rewrite Eex in H2. specialize (Ec TD). simpl in Ec. rewrite Ec. apply HA; auto.
+  - split; [apply P3_init|]. intros H; discriminate.
+Qed.
+
+(* ------------------------------------------------------------------ C06 (i): no reachable state is deadlocked *)
+Lemma em_started_not_exited_running m : em_started m = true -> em_exited m = false -> em_running m = true.
+Proof. unfold em_started, em_exited, em_running. destruct (epcs m); auto; discriminate. Qed.
+
+Lemma existsb_nth {A} (P : A -> bool) l n x : nth_error l n = Some x -> P x = true -> existsb P l = true.
+Proof. intros H Hp. apply existsb_exists. exists x. split; auto. eapply nth_error_In; eauto. Qed.
+
+Lemma api_in_tids s n : cont s (TA n) <> [] -> In (TA n) (all_tids s).
+Proof.
+  unfold cont, all_tids, api_tids. intros H. right.
+  destruct (alookup N.eqb n (aconts s)) as [k|] eqn:E; [|congruence].
+  clear H. induction (aconts s) as [|[a b] m IH]; simpl in *; try discriminate.
+  destruct (N.eqb n a) eqn:En; [apply N.eqb_eq in En; subst; left; reflexivity | right; auto].
+Qed.
+
+Lemma tid_in_tids s t : cont s t <> [] -> In t (all_tids s).
+Proof. destruct t; [intros _; left; reflexivity | apply api_in_tids]. Qed.
+
+Lemma not_enabled_all s t : existsb (thread_enabled s) (all_tids s) = false -> In t (all_tids s) -> thread_enabled s t = false.
+Proof.
+  intros H Hin. destruct (thread_enabled s t) eqn:E; auto.
+  assert (existsb (thread_enabled s) (all_tids s) = true) by (apply existsb_exists; exists t; auto). congruence.
+Qed.
+
+Lemma head_blocked s t : thread_enabled s t = false -> cont s t <> [] ->
+  (exists k o n, cont s t = IAcq :: k /\ lock s = Some (o, n) /\ tid_eqb o t = false) \/
+  (exists e k, cont s t = IEmJoin e :: k /\
+               (get_em s e = None \/ exists m, get_em s e = Some m /\ em_started m = true /\ em_exited m = false)) \/
+  (exists k, cont s t = IJoinDisp :: k /\ dstarted s = true /\ tid_eqb t TD = false /\ dexited s = false) \/
+  (exists k, cont s t = DGet :: k /\ queue s = []).
+Proof.
+  unfold thread_enabled. intros H Hne. destruct (cont s t) as [|i k] eqn:Ec; [congruence|].
+  destruct i; try discriminate.
+  - left. destruct (lock s) as [[o n]|]; try discriminate. eauto 10.
+  - right; left. exists e, k. split; auto. destruct (get_em s e) as [m|]; auto. right. exists m.
+    apply orb_false_iff in H as [H1 H2]. apply negb_false_iff in H1. auto.
+  - right; right; left. exists k. apply orb_false_iff in H as [H1 H2]. apply orb_false_iff in H1 as [H0 H1].
+    apply negb_false_iff in H0. auto.
+  - right; right; right. exists k. destruct (queue s); try discriminate. auto.
+Qed.
+
+Theorem no_deadlock s : reachable s -> deadlocked s = false.
+Proof.
+  intros Hs.
+  destruct (P5_reachable s Hs) as [[HL [[HR HN] HD]] [_ [_ HM]]].
+  pose proof (EmRef_reachable s Hs) as [HRef _].
+  pose proof (JInv_reachable s Hs) as HJ.
+  pose proof (DA_reachable s Hs) as HA.
+  destruct HL as [_ [HLB [HDI HLP]]].
+  unfold deadlocked. destruct (any_enabled s) eqn:Ea; auto. simpl.
+  unfold any_enabled in Ea. apply orb_false_iff in Ea as [Hen Hem].
+  (* nobody waits in emitter.join() *)
+  assert (K2 : forall t e k, In t (all_tids s) -> cont s t = IEmJoin e :: k -> False).
+  { intros t e k Hin Ec. pose proof (not_enabled_all s t Hen Hin) as Hne.
+    unfold thread_enabled in Hne. rewrite Ec in Hne.
+    destruct (get_em s e) as [m|] eqn:Eg.
+    - apply orb_false_iff in Hne as [H1 H2]. apply negb_false_iff in H1.
+      assert (existsb em_running (ems s) = true).
+      { eapply existsb_nth; eauto. apply em_started_not_exited_running; auto. }
+      congruence.
+    - specialize (HRef t). rewrite Ec in HRef. simpl in HRef. apply andb_true_iff in HRef as [Hr _].
+      unfold ref_ok in Hr. simpl in Hr. apply Nat.ltb_lt in Hr. unfold get_em in Eg. apply nth_error_None in Eg. lia. }
+  (* nobody waits for the observer lock *)
+  assert (K1 : forall t k, In t (all_tids s) -> cont s t = IAcq :: k -> False).
+  { intros t k Hin Ec. pose proof (not_enabled_all s t Hen Hin) as Hne.
+    unfold thread_enabled in Hne. rewrite Ec in Hne.
+    destruct (lock s) as [[o n]|] eqn:El; try discriminate.
+    assert (Hh : held s o = n) by (unfold held; rewrite El, tid_eqb_refl; reflexivity).
+    destruct n as [|n]; [unfold lock_pos in HLP; rewrite El in HLP; discriminate|].
+    pose proof (HLB o) as HBo. rewrite Hh in HBo.
+    assert (Hco : cont s o <> []) by (intros E; rewrite E in HBo; destruct HBo as [Hw _]; discriminate).
+    pose proof (tid_in_tids s o Hco) as Hino.
+    pose proof (not_enabled_all s o Hen Hino) as Hneo.
+    destruct (head_blocked s o Hneo Hco) as [[k' [o' [n' [E1 [E2 E3]]]]] | [[e [k' [E1 _]]] | [[k' [E1 [E2 [E3 E4]]]] | [k' [E1 E2]]]]].
+    - rewrite El in E2. inversion E2; subst. rewrite tid_eqb_refl in E3. discriminate.
+    - eapply K2; eauto.
+    - destruct o; [simpl in E3; discriminate|].
+      assert (Hj : has_join (cont s (TA n0)) = true) by (rewrite E1; reflexivity).
+      rewrite (HJ n0 Hj) in HBo. destruct HBo as [Hw _]. discriminate.
+    - destruct HBo as [Hw [_ Hl]]. rewrite E1 in Hw, Hl.
+      assert (k' = []) by (eapply last_only_terminal; eauto). subst. discriminate. }
+  destruct (existsb (thread_stuck s) (all_tids s)) eqn:Est; auto. exfalso.
+  apply existsb_exists in Est as [t [Hin Hst]].
+  unfold thread_stuck in Hst. apply andb_true_iff in Hst as [Hne Hst]. apply negb_true_iff in Hne.
+  destruct (cont s t) as [|i k] eqn:Ec; try discriminate.
+  destruct i; try discriminate.
+  - eapply K1; eauto.
+  - eapply K2; eauto.
+  - (* observer.join() although stop() was called *)
+    unfold thread_enabled in Hne. rewrite Ec in Hne.
+    apply orb_false_iff in Hne as [H1 Hex]. apply orb_false_iff in H1 as [Hds Htd]. apply negb_false_iff in Hds.
+    pose proof (HA Hds Hex) as Had.
+    assert (Hcd : cont s TD <> []) by (simpl; intros E; rewrite E in Had; apply Had; reflexivity).
+    assert (HinD : In TD (all_tids s)) by (left; reflexivity).
+    pose proof (not_enabled_all s TD Hen HinD) as HneD.
+    destruct (head_blocked s TD HneD Hcd) as [[k' [o' [n' [E1 _]]]] | [[e [k' [E1 _]]] | [[k' [E1 [_ [E3 _]]]] | [k' [E1 E2]]]]].
+    + eapply K1; eauto.
+    + eapply K2; eauto.
+    + simpl in E3. discriminate.
+    + simpl in E1. pose proof (HLB TD) as HBD. simpl in HBD. rewrite E1 in HBD. destruct HBD as [_ [_ Hl]].
+      assert (k' = []) by (eapply last_only_terminal; eauto). subst k'.
+      destruct (HM Hst) as [D1 | [[t1 D2] | D3]].
+      * rewrite E2 in D1. destruct D1.
+      * assert (Hc1 : cont s t1 <> []) by (intros E; rewrite E in D2; discriminate).
+        pose proof (tid_in_tids s t1 Hc1) as Hin1.
+        pose proof (not_enabled_all s t1 Hen Hin1) as Hne1.
+        destruct (head_blocked s t1 Hne1 Hc1) as [[k1 [o' [n' [F1' _]]]] | [[e [k1 [F1' _]]] | [[k1 [F1' [_ [F3' _]]]] | [k1 [F1' _]]]]].
+        -- eapply K1; eauto.
+        -- eapply K2; eauto.
+        -- destruct t1; [simpl in F3'; discriminate|].
+           assert (Hj : has_join (cont s (TA n)) = true) by (rewrite F1'; reflexivity).
+           rewrite (HJ n Hj) in D2. discriminate.
+        -- pose proof (HLB t1) as HB1. rewrite F1' in HB1. destruct HB1 as [_ [_ Hl1]].
+           assert (k1 = []) by (eapply last_only_terminal; eauto). subst k1. rewrite F1' in D2. discriminate.
+      * apply D3. rewrite E1. reflexivity.
+Qed.
